@@ -31,9 +31,10 @@ from cubed.utils import (
 )
 
 try:
-    from zarr.errors import ArrayNotFoundError  # type: ignore
+    from zarr.errors import ArrayNotFoundError, GroupNotFoundError  # type: ignore
 except ImportError:
     ArrayNotFoundError = FileNotFoundError  # type: ignore # zarr-python<=3.1.1
+    GroupNotFoundError = FileNotFoundError  # type: ignore
 
 # A unique ID with sensible ordering, used for making directory names
 CONTEXT_ID = f"cubed-{datetime.now().strftime('%Y%m%dT%H%M%S')}-{uuid.uuid4()}"
@@ -924,13 +925,15 @@ def already_computed(name, dag, nodes: dict[str, Any]) -> bool:
         if target is not None:
             try:
                 target = open_if_lazy_zarr_array(target)
-                if not hasattr(target, "nchunks_initialized"):
-                    raise NotImplementedError(
-                        f"Zarr array type {type(target)} does not support resume since it doesn't have a 'nchunks_initialized' property"
-                    )
-                # this check can be expensive since it has to list the directory to find nchunks_initialized
-                if target.ndim == 0 or target.nchunks_initialized != target.nchunks:
-                    return False
-            except ArrayNotFoundError:
+            except (ArrayNotFoundError, GroupNotFoundError, KeyError):
+                # the array - or, for a structured array, the group or one of
+                # its per-field arrays - doesn't exist yet
+                return False
+            if not hasattr(target, "nchunks_initialized"):
+                raise NotImplementedError(
+                    f"Zarr array type {type(target)} does not support resume since it doesn't have a 'nchunks_initialized' property"
+                )
+            # this check can be expensive since it has to list the directory to find nchunks_initialized
+            if target.ndim == 0 or target.nchunks_initialized != target.nchunks:
                 return False
     return True
